@@ -28,3 +28,12 @@ package internal
 // digits(w, from, n): the n (<= 9) bytes of w starting at from are ASCII digits; dec: their decimal value
 //@ pure func digits(w bytes, from int, n int) bool = forall i in 0..9 :: i < n ==> isDigit(w[from+i])
 //@ pure func dec(w bytes, from int, n int) int = sum i in 0..9 :: ite(i < n, (int(w[from+i]) - '0') * pow10(n-1-i), 0)
+
+// Ghost lemma (an empty function whose contract is proved by arithmetic alone and assumed where it is called):
+// a number below 10^9 is the sum of its decimal digits times their powers of ten.
+//@ func LemmaDecDigits
+//@   lemma
+//@   requires 0 <= y && y < 1000000000
+//@   ensures y == sum k in 0..9 :: fmod(fdiv(y, pow10(k)), 10) * pow10(k)
+
+func LemmaDecDigits(y int) {}
